@@ -209,7 +209,7 @@ func runWorker(t *testing.T) {
 			pb, _ := json.Marshal(replayFile{Property: id, Oracle: strings.ToLower(id) + ".crash", Sig: "process killed by a fatal runtime error", Seed: seed, Scenario: sb})
 			os.WriteFile(progress, pb, 0o644)
 		}
-		o := p.Exec(t, sc, false)
+		o := safeExec(p, t, sc, false)
 		if debug {
 			fmt.Fprintf(os.Stderr, "DEBUG run %d done fail=%v\n", i, o.Fail != nil)
 		}
@@ -228,7 +228,7 @@ func runWorker(t *testing.T) {
 			sum.SeedHashes[fmt.Sprint(seed)] = fmt.Sprintf("%016x", o.LogHash)
 		}
 		if i-i0 < selfSeeds {
-			o2 := p.Exec(t, cloneScenario(p, sc), false)
+			o2 := safeExec(p, t, cloneScenario(p, sc), false)
 			switch {
 			case o2.LogHash == o.LogHash:
 			case free && (o.Fail != nil || o2.Fail != nil):
@@ -295,7 +295,7 @@ func handleFailure(t *testing.T, p *Prop, sc any, o *Outcome, seed uint64, dir s
 		writeReplay(p, &v, seed, o.LogHash, dir)
 		return v
 	}
-	bestOut := p.Exec(t, cloneScenario(p, best), false)
+	bestOut := safeExec(p, t, cloneScenario(p, best), false)
 	if bestOut.Fail == nil || bestOut.Fail.Oracle != o.Fail.Oracle {
 		if p.EngineB {
 			// free-running engine: the failure may depend on the fine interleaving; leave the verdict to
@@ -321,7 +321,7 @@ func handleFailure(t *testing.T, p *Prop, sc any, o *Outcome, seed uint64, dir s
 					break
 				}
 				execs++
-				co := p.Exec(t, cloneScenario(p, cand), false)
+				co := safeExec(p, t, cloneScenario(p, cand), false)
 				if co.Fail != nil && co.Fail.Oracle == o.Fail.Oracle {
 					best = cand
 					bestOut = co
@@ -370,13 +370,13 @@ func replay(t *testing.T, p *Prop, path string) {
 		fmt.Printf("HARNESS-ERROR %v\n", err)
 		os.Exit(2)
 	}
-	o := p.Exec(t, sc, os.Getenv("VERIF_VERBOSE") != "")
+	o := safeExec(p, t, sc, os.Getenv("VERIF_VERBOSE") != "")
 	if strings.HasSuffix(rf.Oracle, ".crash") {
 		// the original run killed its process; if this loop survives, the crash did not reproduce
 		for i := 0; i < 60; i++ {
 			sc2 := p.New()
 			json.Unmarshal(rf.Scenario, sc2)
-			p.Exec(t, sc2, false)
+			safeExec(p, t, sc2, false)
 		}
 		fmt.Printf("REPLAY-OK property=%s crash did not reproduce in 60 repetitions\n", p.ID)
 		return
@@ -391,7 +391,7 @@ func replay(t *testing.T, p *Prop, path string) {
 			}
 			sc2 := p.New()
 			json.Unmarshal(rf.Scenario, sc2)
-			o = p.Exec(t, sc2, false)
+			o = safeExec(p, t, sc2, false)
 		}
 		if (o.Fail == nil || o.Fail.Oracle != rf.Oracle) && other != nil {
 			o = other
@@ -418,6 +418,24 @@ func runDescribe(t *testing.T) {
 		"assume": p.Assume, "fault_kinds": p.FaultKinds, "not_injected": p.NotInjected, "quick_runs": p.QuickRuns, "thorough_runs": p.ThoroughRuns}
 	b, _ := json.Marshal(d)
 	fmt.Println("DESCRIBE " + string(b))
+}
+
+// safeExec runs one scenario; a panic that unwinds into the harness goroutine (history-mode properties call the code
+// under test directly) becomes an oracle failure when the panic came out of the tree under test.
+func safeExec(p *Prop, t *testing.T, sc any, keepLog bool) (o *Outcome) {
+	defer func() {
+		if r := recover(); r != nil {
+			stack := debugStack()
+			if !strings.Contains(stack, kit.RepoPrefix()) {
+				panic(r) // a bug of the harness itself: let the worker die, the driver reports harness trouble
+			}
+			h := kit.NewHash64()
+			h.WriteString(fmt.Sprint(r))
+			o = &Outcome{Counters: map[string]int{}, Nontrivial: true, LogHash: h.Sum(), Distinct: h.Sum(),
+				Fail: Failf(strings.ToLower(p.ID)+".panic", panicSite(stack), "panic: %v\n%s", r, stack)}
+		}
+	}()
+	return p.Exec(t, sc, keepLog)
 }
 
 // removeAt helpers for shrinkers.
